@@ -941,3 +941,31 @@ Print Assumptions chain_set_read_back.
 Print Assumptions chain_set_then_get.
 Print Assumptions chain_set_frame.
 Print Assumptions chain_set_other_doc.
+
+(* ---- the other two-step API calls of Model/Chain.v are runs of steps as well ---- *)
+Lemma then_to_is_run : forall w1 res arr, exists ops, fst (then_to w1 res arr) = run w1 ops.
+Proof.
+  intros w1 res arr. unfold then_to. destruct (ref_of res) as [e|].
+  - exists [if arr then OToArr e else OToObj e]. reflexivity.
+  - exists []. reflexivity.
+Qed.
+Theorem add_typed_is_run : forall w r arr, exists ops, fst (add_typed w r arr) = run w ops.
+Proof.
+  intros w r arr. unfold add_typed. destruct (step w (OAddNew r)) as [w1 res] eqn:E.
+  destruct (then_to_is_run w1 res arr) as (ops & H). exists (OAddNew r :: ops).
+  cbn [run]. rewrite E. exact H.
+Qed.
+Theorem nest_typed_is_run : forall w r k arr, exists ops, fst (nest_typed w r k arr) = run w ops.
+Proof.
+  intros w r k arr. unfold nest_typed. destruct (step w (OMakeMember r k)) as [w1 res] eqn:E.
+  destruct (then_to_is_run w1 res arr) as (ops & H). exists (OMakeMember r k :: ops).
+  cbn [run]. rewrite E. exact H.
+Qed.
+Theorem doc_move_is_run : forall w d s, fst (doc_move w d s) = run w [ODocCopy d s; ODocClear s].
+Proof. reflexivity. Qed.
+Corollary add_typed_wfw : forall w r arr, wfw w -> wfw (fst (add_typed w r arr)).
+Proof. intros w r arr W. destruct (add_typed_is_run w r arr) as (ops & ->). now apply run_wfw. Qed.
+Corollary nest_typed_wfw : forall w r k arr, wfw w -> wfw (fst (nest_typed w r k arr)).
+Proof. intros w r k arr W. destruct (nest_typed_is_run w r k arr) as (ops & ->). now apply run_wfw. Qed.
+Corollary doc_move_wfw : forall w d s, wfw w -> wfw (fst (doc_move w d s)).
+Proof. intros w d s W. rewrite doc_move_is_run. now apply run_wfw. Qed.
